@@ -87,6 +87,7 @@ def opt(s):
 # ---- running the real builder
 class StubServer(object):
     last = None
+    Names = {}          # the task registry buildServer consults for a duplicate name (fix D69b); one server per case
 
     def __init__(self, name="", store=None, **kw):
         self.name, self.store, self.kw = name, store, None
